@@ -57,9 +57,9 @@ def _op_modules() -> list:
 
 def op_for(op, pal, nid: int, loop: bool = False):
     """The constructor module of application `nid`: the plain v17 namespace unless the palette asks for
-    mixed modules (bit 3 of `pal`), in which case every application draws its own module - the built
+    mixed modules (bits 3 and 4 of `pal` set), in which case every application draws its own module - the built
     model then needs version adaptation of single nodes, in main and inside bodies."""
-    if pal is None or not (pal >> 3) & 1:
+    if pal is None or (pal >> 3) & 3 != 3:
         return op
     mods = _op_modules()
     if loop:
@@ -384,7 +384,7 @@ class ScriptError(Exception):
     pass
 
 
-def realise_script(script: dict, name_vars: bool = True, pal=None) -> Real:
+def realise_script(script: dict, name_vars: bool = True, pal=None, name_offset: int = 0) -> Real:
     """Run a script with `if_` / `loop` callbacks. Script:
         {"main": block, "res": [refs]}
         block = [stmt...];  stmt = ["val", kind, [refs]]
@@ -406,7 +406,9 @@ def realise_script(script: dict, name_vars: bool = True, pal=None) -> Real:
         if node in R.node_id:
             R.merged.append((R.node_id[node], nid))
         if name_vars:
-            _name_outputs(node, nid, is_arg)
+            # `name_offset`: the same program under other value names (only for programs that are built
+            # to leave traces in the process, never judged)
+            _name_outputs(node, nid + name_offset, is_arg)
         R.node_id[node] = nid
         R.nodes.append(node)
         box.append(list(node.outputs.get_vars().values())[0])
@@ -568,6 +570,20 @@ def trace_from_proto(ap: dict, model) -> list:
 
     walk(model.graph, 0)
     return trace
+
+
+def placed_from_trace(trace: list) -> list:
+    """[vertex, graph] for every `emit` event: the innermost graph open at the event (the counterpart of
+    `BuildAlg.placed`, computed on the trace read from the real ModelProto)."""
+    out, st = [], []
+    for k, x in trace:
+        if k == "enter":
+            st.append(x)
+        elif k == "leave":
+            st.pop()
+        elif k == "emit":
+            out.append([x, st[-1] if st else 0])
+    return out
 
 
 def drop_initializers(ap: dict, trace: list) -> list:
